@@ -310,7 +310,7 @@ func (c *ctx) joinCase() {
 	ev := M{"ev": "joinmic", "op": "set", "key": bs(key[:])}
 	var jeui lorawan.EUI64
 	copy(jeui[:], c.bytesN(8))
-	dn := lorawan.DevNonce(c.rnd.Intn(65536))
+	dn := lorawan.DevNonce(c.edgeN(65536))
 	jt := lorawan.JoinType(c.pick(0xff, 0, 1, 2))
 	isJA := v["kind"] == "joinacc"
 	if isJA {
